@@ -22,6 +22,13 @@ STR_FORMAT_EX = {
     "ip": (["127.0.0.1", "::1"], ["300.1.1.1", "ip"]),
     "ipv4": (["127.0.0.1", "10.0.0.255"], ["::1", "1.2.3"]),
     "ipv6": (["::1", "fe80::1"], ["127.0.0.1", "gggg::1"]),
+    "time": (["03:04:05", "23:59:59.5Z"], ["25:00:00", "noon"]),
+    "partial-date-time": (["2020-01-02T03:04:05", "1999-12-31T23:59:59.250"], ["2020-01-02 03:04:05", "noon"]),
+    "duration": (["P1D", "PT0.5S"], ["1 day", "P"]),
+    "uri": (["http://example.com/a?b=c", "HTTP://EXAMPLE.COM"], ["not a uri", ""]),
+    "email": (["a@example.com", "A.B@EXAMPLE.COM"], ["nobody", "@"]),
+    "hostname": (["example.com", "EXAMPLE.com."], ["-bad-", "a b"]),
+    "regex": (["^[a-z]+$", "a|b"], ["(", "[a-"]),
 }
 
 INT_LIMITS = {
